@@ -455,4 +455,57 @@ theorem clSane_of_seg (cl : List A → List (List A)) (h : VaxisModel.Spec.Edito
     exact hs (by simpa using this.symm)
   flat := h.flatten
 
+/-! ### histories through the translated bodies -/
+
+open VaxisModel.Lemmas.EditorCl (TFOpC tfStepC tfRunC) in
+/-- One operation (a key event through `HandleEvent`, or a call of the exported API) run by the
+    interpreter on the translated bodies; `none` = the interpreter has no meaning for a statement. -/
+def tfStepI (cl : List A → List (List A)) (tf : TextFieldCl.TF A) : TFOpC A → Option (TextFieldCl.TF A)
+  | .key ev => (tfHandleKey genTf cl tf ev).map (·.1)
+  | .ins s => (tfApi genTf cl "InsertStringAtCursor" [.str s] tf).map (·.1)
+  | .cur i => (tfApi genTf cl "CursorTo" [.num i] tf).map (·.1)
+  | .delr => (tfApi genTf cl "DeleteCharRightOfCursor" [] tf).map (·.1)
+  | .dell => (tfApi genTf cl "DeleteCharLeftOfCursor" [] tf).map (·.1)
+  | .kill => (tfApi genTf cl "DeleteCursorToEndOfLine" [] tf).map (·.1)
+  | .reset => (tfApi genTf cl "Reset" [] tf).map (·.1)
+
+open VaxisModel.Lemmas.EditorCl (TFOpC tfStepC tfRunC) in
+def tfRunI (cl : List A → List (List A)) : TextFieldCl.TF A → List (TFOpC A) → Option (TextFieldCl.TF A)
+  | tf, [] => some tf
+  | tf, op :: ops =>
+    match tfStepI cl tf op with
+    | some tf' => tfRunI cl tf' ops
+    | none => none
+
+open VaxisModel.Lemmas.EditorCl (TFOpC tfStepC tfRunC) in
+theorem tfStepI_eq (cl : List A → List (List A)) (hs : ClSane cl) (tf : TextFieldCl.TF A) (op : TFOpC A) :
+    tfStepI cl tf op = some (tfStepC cl tf op).1 := by
+  cases op with
+  | key ev => simp [tfStepI, tfStepC, handleEvent_body_eq_model cl hs tf ev]
+  | ins s =>
+    have := tfApi_of_call cl "InsertStringAtCursor" [.str s] tf _ _ (by simpa [tfCall2] using insertString_body_eq_model cl hs tf s)
+    simp [tfStepI, tfStepC, this]
+  | cur i =>
+    have := tfApi_of_call cl "CursorTo" [.num i] tf _ _ (by simpa [tfCall2, tfCall1] using cursorTo_body_eq_model cl tf i)
+    simp [tfStepI, tfStepC, this]
+  | delr =>
+    have := tfApi_of_call cl "DeleteCharRightOfCursor" [] tf _ _ (by simpa [tfCall2, tfCall1] using deleteRight_body_eq_model cl hs tf)
+    simp [tfStepI, tfStepC, this]
+  | dell =>
+    have := tfApi_of_call cl "DeleteCharLeftOfCursor" [] tf _ _ (by simpa [tfCall2, tfCall1] using deleteLeft_body_eq_model cl hs tf)
+    simp [tfStepI, tfStepC, this]
+  | kill =>
+    have := tfApi_of_call cl "DeleteCursorToEndOfLine" [] tf _ _ (by simpa [tfCall2, tfCall1] using killToEnd_body_eq_model cl hs tf)
+    simp [tfStepI, tfStepC, this]
+  | reset =>
+    have := tfApi_of_call cl "Reset" [] tf _ _ (by simpa [tfCall2, tfCall1] using reset_body_eq_model cl tf)
+    simp [tfStepI, tfStepC, this]
+
+open VaxisModel.Lemmas.EditorCl (TFOpC tfStepC tfRunC) in
+theorem tfRunI_eq (cl : List A → List (List A)) (hs : ClSane cl) (ops : List (TFOpC A)) (tf : TextFieldCl.TF A) :
+    tfRunI cl tf ops = some (tfRunC cl tf ops) := by
+  induction ops generalizing tf with
+  | nil => rfl
+  | cons op ops ih => simp [tfRunI, tfRunC, tfStepI_eq cl hs, ih]
+
 end VaxisModel.Lemmas.EdLangTFBody
